@@ -222,7 +222,11 @@ def vkey(v):
         return "|" + ",".join(render_pat(p) for p in v.params) + "| " + render(v.body) + ("[" + ", ".join(f"{k}={x}" for k, x in caps) + "]" if caps else "")
     if v is None:
         return "∅"
-    return repr(v)
+    if isinstance(v, FnRef):
+        return v.name
+    if isinstance(v, (FIdent, Action, Unit)):
+        return repr(v)
+    return type(v).__name__
 
 
 def clos_captures(c):
@@ -643,6 +647,9 @@ class Evaluator:
             if c.ctor:
                 return Tag(c.ctor, args)
             return self.call_fn(c.name, args)
+        if isinstance(c, SymObj):
+            self.effects.append(("call", c.path, [vkey(a) for a in args]))
+            return SymObj(c.path + "(" + ", ".join(self.argkey(a) for a in args) + ")", ("named", "?"))
         if not isinstance(c, Clos):
             raise Unsupported("call of non-closure " + vkey(c))
         env = dict(c.env)
@@ -1063,7 +1070,12 @@ class Evaluator:
         raise BreakEx()
 
     def e_Try(self, e, env):
-        return self.eval(e["expr"], env)
+        v = self.eval(e["expr"], env)
+        if isinstance(v, Tag) and v.name == "Err":
+            raise ReturnEx(v)
+        if isinstance(v, Tag) and v.name == "Ok" and v.args:
+            return v.args[0]
+        return v
 
     def e_Index(self, e, env):
         base = self.eval(e["expr"], env)
@@ -1091,7 +1103,7 @@ class Evaluator:
                 return self.call_closure(env[segs[0]], args)
             name = segs[-1]
             if len(segs) == 1:
-                if name in ("Some", "Ok"):
+                if name in ("Some", "Ok", "Err"):
                     return Tag(name, args, "Option" if name == "Some" else "Result")
                 if name in ("Named", "Unnamed"):
                     return Tag(name, args, "Member")
